@@ -94,7 +94,11 @@ def run(ctx):
             kw['sensitive'] = True
         label = '%s' % {k: v for k, v in sc.items()}
         try:
-            msg = pgpy.PGPMessage.new(content, **kw)
+            callerbuf = None
+            if isinstance(content, bytes) and n % 3 == 0:
+                # the message is built from a bytearray the caller goes on using (overwritten and shrunk below, after signing)
+                callerbuf = bytearray(content)
+            msg = pgpy.PGPMessage.new(callerbuf if callerbuf is not None else content, **kw)
             if sc['name'] == 'nonascii':
                 msg._message.filename = 'dätei-✓.txt'
                 msg._message.update_hlen()
@@ -116,6 +120,8 @@ def run(ctx):
                     sigs_made.append(s)
                     if early:
                         bytes(msg), str(msg)
+            if callerbuf is not None:
+                callerbuf[:] = b'the caller has re-used its buffer'
             blob = bytes(msg)
         except Exception as ex:
             ev.append({'k': 'import', 'label': label, 'raised': True, 'before': {}, 'after': {}, 'clause': 'C20.import', 'exc': 'construct: ' + repr(ex)[:100]})
